@@ -102,6 +102,20 @@ func (svc *HTTPServiceExpr) CanonicalEndpoint() *HTTPEndpointExpr {
 
 // FullPaths computes the base paths to the service endpoints concatenating the
 // API and parent service base paths as needed.
+// parentCycle returns true if the chain of parents of the service leads back
+// to the service (validation reports it, computing paths must not recurse
+// forever before it does).
+func (svc *HTTPServiceExpr) parentCycle() bool {
+	seen := map[*HTTPServiceExpr]struct{}{svc: {}}
+	for p := svc.Parent(); p != nil; p = p.Parent() {
+		if _, ok := seen[p]; ok {
+			return true
+		}
+		seen[p] = struct{}{}
+	}
+	return false
+}
+
 func (svc *HTTPServiceExpr) FullPaths() []string {
 	if len(svc.Paths) == 0 {
 		return []string{path.Join(Root.API.HTTP.Path)}
@@ -113,7 +127,7 @@ func (svc *HTTPServiceExpr) FullPaths() []string {
 			continue
 		}
 		var basePaths []string
-		if p := svc.Parent(); p != nil {
+		if p := svc.Parent(); p != nil && !svc.parentCycle() {
 			if ca := p.CanonicalEndpoint(); ca != nil {
 				if routes := ca.Routes; len(routes) > 0 {
 					// Note: all these tests should be true at code
